@@ -22,6 +22,7 @@ STD_ENUMS = {
     "Ordering": ["Less", "Equal", "Greater"],
     "TrySendError": ["Full", "Closed"],
     "TryRecvError": ["Empty", "Disconnected"],
+    "SendTimeoutError": ["Timeout", "Closed"],
     "Cow": ["Borrowed", "Owned"],
 }
 
